@@ -411,6 +411,9 @@ func compareStates(where string, ad, ref reader, addrs []ethcmn.Address, slots m
 			return mk("codehash", "GetCodeHash(%s) adapter=%s reference=%s", a.Hex(), x.Hex(), y.Hex())
 		}
 		if x, y := ad.GetCode(a), ref.GetCode(a); !bytes.Equal(x, y) {
+			if bytes.Equal(y, []byte(storage.TOMBSTONE)) {
+				return mk("code-equals-marker", "GetCode(%s) adapter=%x reference=%x (the code is the store's deletion marker)", a.Hex(), x, y)
+			}
 			return mk("code", "GetCode(%s) adapter=%x reference=%x", a.Hex(), x, y)
 		}
 		if x, y := ad.GetCodeSize(a), ref.GetCodeSize(a); x != y {
